@@ -8,4 +8,6 @@ func verifEvent(kind string, pts ...Point64) {}
 
 func verifEventLoop(kind string, op *OutPt) {}
 
+func verifEventPaths(kind string, paths Paths64) {}
+
 func verifLastPt(ae *Active) Point64 { return Point64{} }
